@@ -917,7 +917,7 @@ class Resolver:
                         self._add(self.param_in[f.qual], ps[0], rt)
                     out |= self.ret_for_args(f, {ps[0]: rt} if ps else {})
             elif t in NUM or t == "bool":
-                if rt & NUM or not rt:
+                if rt & NUM or (not rt and not self._optimistic):
                     if isinstance(op, ast.Div):
                         out.add("float")
                     else:
